@@ -63,6 +63,10 @@ def expr(e):
         return '(EBin %s %s %s)' % (BIN[type(e.op)], expr(e.left), expr(e.right))
     if isinstance(e, ast.BinOp) and isinstance(e.op, ast.BitXor):
         return '(EXor %s %s)' % (expr(e.left), expr(e.right))
+    if isinstance(e, ast.BinOp) and isinstance(e.op, ast.Mod):
+        # `a % b` on numbers (Py.v prim_apply PMod: floor-mod, ZeroDivisionError when b is 0; a string or any other
+        # operand is the error value TypeError)
+        return '(EPrim PMod [%s; %s])' % (expr(e.left), expr(e.right))
     if isinstance(e, ast.Compare):
         if len(e.ops) == 1 and isinstance(e.ops[0], (ast.In, ast.NotIn)):
             neg = 'true' if isinstance(e.ops[0], ast.NotIn) else 'false'
@@ -89,9 +93,30 @@ def expr(e):
         return '(ECond %s %s %s)' % (expr(e.test), expr(e.body), expr(e.orelse))
     if isinstance(e, ast.Subscript) and isinstance(e.slice, ast.Constant) and isinstance(e.slice.value, str):
         return '(ESubscr %s %s)' % (expr(e.value), q(e.slice.value))
+    if STR_INDEX[0] and isinstance(e, ast.Subscript) and isinstance(e.ctx, ast.Load) \
+            and isinstance(e.slice, ast.Constant) and isinstance(e.slice.value, int) \
+            and not isinstance(e.slice.value, bool) and e.slice.value >= 0:
+        # option 'str_index' of the target: `x[0]` where x may be a str as well as a tuple (EIndex is an error on
+        # a str): the call of the builtin "%getitem" (not a Python name) with the index as a number; its meaning is
+        # whatever [ocall] answers: the theorems state it (element of a list, one-character str of a str)
+        return '(ECall "%%getitem" [%s; (EConst %s)])' % (expr(e.value), num(e.slice.value))
     if isinstance(e, ast.Subscript) and isinstance(e.slice, ast.Constant) and isinstance(e.slice.value, int) \
             and e.slice.value >= 0:
         return '(EIndex %s %d)' % (expr(e.value), e.slice.value)
+    if isinstance(e, ast.Subscript) and isinstance(e.ctx, ast.Load) and isinstance(e.slice, ast.Slice) \
+            and e.slice.lower is None and e.slice.step is None and e.slice.upper is not None:
+        return '(EPrim PSliceTo [%s; %s])' % (expr(e.value), expr(e.slice.upper))   # a[:n]
+    if isinstance(e, ast.Subscript) and isinstance(e.ctx, ast.Load) \
+            and not isinstance(e.slice, (ast.Slice, ast.Tuple, ast.Constant, ast.Starred)):
+        return '(EPrim PIndex [%s; %s])' % (expr(e.value), expr(e.slice))   # a[i], i an expression
+    if isinstance(e, ast.Call) and isinstance(e.func, ast.Name) and e.func.id == 'len' and len(e.args) == 1 \
+            and not e.keywords and not isinstance(e.args[0], ast.Starred):
+        BUILTINS_SEEN.append('len')
+        return '(EPrim PLen [%s])' % expr(e.args[0])
+    if isinstance(e, ast.BinOp) and isinstance(e.op, ast.MatMult) and '.__matmul__' in CALLABLE:
+        # a @ b is type(a).__matmul__(a, b); like every method the callee is resolved by name
+        CALLS_SEEN.append('.__matmul__')
+        return '(ECall ".__matmul__" [%s; %s])' % (expr(e.left), expr(e.right))
     if isinstance(e, ast.Call) and isinstance(e.func, ast.Name) and e.func.id == 'isinstance' \
             and ast.unparse(e.args[1]) == 'boxes.Box':
         return '(EIsObj %s)' % expr(e.args[0])
@@ -105,7 +130,7 @@ def expr(e):
             g = a.generators[0]
             if isinstance(g.target, ast.Name) and len(g.ifs) <= 1 and not g.is_async:
                 cond = 'None' if not g.ifs else '(Some %s)' % expr(g.ifs[0])
-                return '(%s %s %s %s %s)' % (k, expr(a.elt), q(g.target.id), expr(g.iter), cond)
+                return '(%s %s %s %s %s)' % (k, expr(a.elt), q(g.target.id), iterable(g.iter), cond)
         if not isinstance(a, ast.GeneratorExp):  # max(xs) == max(x for x in xs), xs any list-valued expression
             return '(%s (EVar "_x") "_x" %s None)' % (k, expr(a))
     if isinstance(e, ast.Call) and isinstance(e.func, ast.Name) and e.func.id in ('max', 'min') \
@@ -131,10 +156,33 @@ def expr(e):
         g = e.generators[0]
         if isinstance(g.target, ast.Name) and len(g.ifs) <= 1 and not g.is_async:
             cond = 'None' if not g.ifs else '(Some %s)' % expr(g.ifs[0])
-            return '(EListComp %s %s %s %s)' % (expr(e.elt), q(g.target.id), expr(g.iter), cond)
+            return '(EListComp %s %s %s %s)' % (expr(e.elt), q(g.target.id), iterable(g.iter), cond)
     if isinstance(e, ast.Call) and isinstance(e.func, ast.Name) and e.func.id == 'sum' and len(e.args) == 1 \
-            and not e.keywords and isinstance(e.args[0], ast.GeneratorExp):
+            and not e.keywords and isinstance(e.args[0], ast.GeneratorExp) \
+            and not (len(e.args[0].generators) == 1
+                     and isinstance(e.args[0].generators[0].iter, (ast.Name, ast.Attribute))):
         return sum_over_display(e.args[0])
+    if isinstance(e, ast.Call) and isinstance(e.func, ast.Name) and e.func.id == 'sum' and len(e.args) == 1 \
+            and not e.keywords and isinstance(e.args[0], (ast.Name, ast.Attribute, ast.GeneratorExp)):
+        # sum(xs), xs a variable / attribute holding a list: the primitive PSum of Py.v (0 + xs[0] + xs[1] + ... from
+        # the left).  sum(elt for x in xs if c) == sum([elt for x in xs if c]): the same value; Python adds while it
+        # iterates, so when an element is not a number AND a later element raises while it is evaluated, Python
+        # reports the TypeError of the addition and this form the later error (as for max / min over a generator)
+        BUILTINS_SEEN.append('sum')
+        a = e.args[0]
+        if isinstance(a, ast.GeneratorExp):
+            a = ast.ListComp(elt=a.elt, generators=a.generators)
+        return '(EPrim PSum [%s])' % expr(a)
+    if isinstance(e, ast.Call) and isinstance(e.func, ast.Name) and e.func.id == 'enumerate' \
+            and len(e.args) == 1 and not e.keywords and not isinstance(e.args[0], (ast.Starred, ast.GeneratorExp)):
+        # enumerate(xs) where it is iterated: the list of the pairs [i; xs[i]] (PEnumerate of Py.v)
+        BUILTINS_SEEN.append('enumerate')
+        return '(EPrim PEnumerate [%s])' % expr(e.args[0])
+    if isinstance(e, ast.Call) and isinstance(e.func, ast.Name) and e.func.id == 'range' \
+            and len(e.args) == 2 and not e.keywords and not any(isinstance(a, ast.Starred) for a in e.args):
+        # range(a, b) where it is iterated: the list a .. b-1 (PRange2 of Py.v)
+        BUILTINS_SEEN.append('range')
+        return '(EPrim PRange2 [%s; %s])' % (expr(e.args[0]), expr(e.args[1]))
     if isinstance(e, ast.Call) and isinstance(e.func, ast.Attribute) and e.func.attr == 'count' \
             and isinstance(e.func.value, (ast.List, ast.Tuple)) and len(e.args) == 1 and not e.keywords \
             and isinstance(e.args[0], ast.Constant) and isinstance(e.args[0].value, str):
@@ -144,13 +192,127 @@ def expr(e):
             pure(x)
             r = '(EBin Add %s (ECond (ECmp %s [(Eq, %s)]) (EConst (VNum 1)) (EConst (VNum 0))))' % (r, expr(x), expr(e.args[0]))
         return r
+    if isinstance(e, ast.Call) and isinstance(e.func, ast.Name) and e.func.id == 'len' and len(e.args) == 1 \
+            and not e.keywords and not isinstance(e.args[0], ast.Starred):
+        # `len(x)`: the primitive PLen of Py.v (the number of elements of a list; any other operand is the error
+        # value TypeError there).  Refused when the name `len` is rebound in the function or in the module.
+        builtin_not_rebound('len')
+        return '(EPrim PLen [%s])' % expr(e.args[0])
+    if isinstance(e, ast.Call) and isinstance(e.func, ast.Attribute) and e.func.attr == 'startswith' \
+            and len(e.args) == 1 and not e.keywords and isinstance(e.args[0], ast.Constant) \
+            and isinstance(e.args[0].value, str) and '.startswith' not in CALLABLE and '.startswith' not in EXTERNAL:
+        # `x.startswith('lit')`: the call of the builtin method "%startswith" (not a Python name) with the receiver
+        # first (evaluated first, as in Python).  Its meaning is whatever [ocall] of the operations record answers:
+        # the theorems state it (receiver a str: is the literal a prefix of it).  Like every method the callee is
+        # resolved by name only: the theorems speak about str receivers.
+        return '(ECall "%%startswith" [%s; %s])' % (expr(e.func.value), expr(e.args[0]))
+    if isinstance(e, ast.Call) and isinstance(e.func, ast.Name) and e.func.id == 'tuple' and len(e.args) == 1 \
+            and not e.keywords and isinstance(e.args[0], ast.Name):
+        # tuple(x), x a local of the function whose every binding is the statement `x = [..]` (a list display; it may
+        # then be appended to): the tuple of the elements of that list, the same value in Py.v (lists and tuples are
+        # both VList).  Refused when `tuple` may be rebound.
+        builtin_not_rebound('tuple')
+        fn, x = CURRENT[0], e.args[0].id
+        binds = [n_ for n_ in ast.walk(fn) if isinstance(n_, ast.Name) and n_.id == x and not isinstance(n_.ctx, ast.Load)]
+        ok = [n_.targets[0] for n_ in ast.walk(fn) if isinstance(n_, ast.Assign) and len(n_.targets) == 1
+              and isinstance(n_.targets[0], ast.Name) and n_.targets[0].id == x and isinstance(n_.value, ast.List)]
+        if not binds or len(binds) != len(ok) or any(a.arg == x for a in ast.walk(fn) if isinstance(a, ast.arg)) \
+                or any(isinstance(n_, (ast.Global, ast.Nonlocal)) and x in n_.names for n_ in ast.walk(fn)):
+            raise Unsupported('tuple(%s): %s is not a local bound only by `%s = [..]`' % (x, x, x))
+        return expr(e.args[0])
+    if isinstance(e, ast.BinOp) and isinstance(e.op, ast.FloorDiv):
+        # `a // b`: the primitive PFloorDiv of Py.v (floor of the quotient of two numbers), operands in evaluation order
+        return '(EPrim PFloorDiv [%s; %s])' % (expr(e.left), expr(e.right))
+    if isinstance(e, ast.Call) and isinstance(e.func, ast.Name) and e.func.id == 'abs' \
+            and len(e.args) == 1 and not e.keywords and not isinstance(e.args[0], ast.Starred):
+        # abs(x): the primitive PAbs (translate_function checks that the module does not bind the name `abs`)
+        NAMED_BUILTINS_SEEN.append('abs')
+        return '(EPrim PAbs [%s])' % expr(e.args[0])
+    if isinstance(e, ast.Call) and isinstance(e.func, ast.Attribute) and e.func.attr == 'join' \
+            and isinstance(e.func.value, ast.Constant) and isinstance(e.func.value.value, str) \
+            and len(e.args) == 1 and not e.keywords and not isinstance(e.args[0], ast.Starred):
+        # 'sep'.join(xs) / 'sep'.join(reversed(xs)): the primitives PJoin [sep; xs] and PReversed [xs]; reversed()
+        # is accepted in this position only (elsewhere its result is an iterator that can be consumed once)
+        a = e.args[0]
+        if isinstance(a, ast.Call) and isinstance(a.func, ast.Name) and a.func.id == 'reversed' and len(a.args) == 1 \
+                and not a.keywords and not isinstance(a.args[0], ast.Starred):
+            NAMED_BUILTINS_SEEN.append('reversed')
+            arg = '(EPrim PReversed [%s])' % expr(a.args[0])
+        else:
+            arg = expr(a)
+        return '(EPrim PJoin [%s; %s])' % (expr(e.func.value), arg)
     if isinstance(e, ast.Call):
         return call(e)
     raise Unsupported(ast.dump(e)[:200])
 
 
+# the function being printed and its module (set by translate_function), for checks that need the context
+CURRENT = [None, None]
+
+
+def builtin_not_rebound(name):
+    fn, tree = CURRENT
+    if fn is None or tree is None:
+        raise Unsupported('builtin %s used where the module is not known' % name)
+    for n in ast.walk(fn):
+        if isinstance(n, ast.Name) and not isinstance(n.ctx, ast.Load) and n.id == name:
+            raise Unsupported('%s is rebound inside %s' % (name, fn.name))
+        if isinstance(n, ast.arg) and n.arg == name:
+            raise Unsupported('%s is a parameter in %s' % (name, fn.name))
+        if isinstance(n, (ast.Global, ast.Nonlocal)) and name in n.names:
+            raise Unsupported('%s is declared global in %s' % (name, fn.name))
+    for n in ast.walk(tree):
+        if isinstance(n, (ast.FunctionDef, ast.AsyncFunctionDef, ast.ClassDef)) and n.name == name:
+            raise Unsupported('%s is defined in the module' % name)
+        if isinstance(n, (ast.Import, ast.ImportFrom)) and any(
+                (a.asname or a.name).split('.')[0] == name or a.name == '*' for a in n.names):
+            raise Unsupported('%s may be imported in the module' % name)
+        if isinstance(n, (ast.Global, ast.Nonlocal)) and name in n.names:
+            raise Unsupported('%s is declared global somewhere in the module' % name)
+    for n in tree.body:
+        for x in ast.walk(n) if not isinstance(n, (ast.FunctionDef, ast.AsyncFunctionDef, ast.ClassDef)) else []:
+            if isinstance(x, ast.Name) and not isinstance(x.ctx, ast.Load) and x.id == name:
+                raise Unsupported('%s is rebound at the top level of the module' % name)
+
+
+BUILTINS_SEEN = []
+
+
+def iterable(it):
+    """the iterable of a comprehension / generator: `range(n)` is iterated as the list 0 .. n-1 (PRange); anything
+    else is an ordinary expression"""
+    if isinstance(it, ast.Call) and isinstance(it.func, ast.Name) and it.func.id == 'range':
+        if len(it.args) != 1 or it.keywords or isinstance(it.args[0], ast.Starred):
+            raise Unsupported('range with other than one argument')
+        BUILTINS_SEEN.append('range')
+        return '(EPrim PRange [%s])' % expr(it.args[0])
+    return expr(it)
+
+
+def check_builtin(tree, fn, name):
+    """`name` (len / range) denotes the builtin: bound neither in the function nor at the module level"""
+    for n in ast.walk(fn):
+        if (isinstance(n, ast.Name) and not isinstance(n.ctx, ast.Load) and n.id == name) \
+                or (isinstance(n, ast.arg) and n.arg == name) \
+                or (isinstance(n, (ast.Global, ast.Nonlocal)) and name in n.names):
+            raise Unsupported('%s is rebound inside %s' % (name, fn.name))
+    for n in ast.walk(tree):
+        if isinstance(n, (ast.FunctionDef, ast.ClassDef)) and n.name == name:
+            raise Unsupported('the module defines %s' % name)
+        if isinstance(n, (ast.Import, ast.ImportFrom)) and any((a.asname or a.name) in (name, '*') for a in n.names):
+            raise Unsupported('the module imports %s' % name)
+        if isinstance(n, (ast.Global, ast.Nonlocal)) and name in n.names:
+            raise Unsupported('global declaration of %s' % name)
+    for n in tree.body:
+        for x in ast.walk(n) if not isinstance(n, (ast.FunctionDef, ast.ClassDef)) else []:
+            if isinstance(x, ast.Name) and not isinstance(x.ctx, ast.Load) and x.id == name:
+                raise Unsupported('the module binds %s' % name)
+
+
 def pure(x):
     """names and attribute chains only: evaluating them twice, or not at all, cannot be observed"""
+    if isinstance(x, ast.Constant) and type(x.value) is int:
+        return   # an integer literal (the elements of range(<literal>))
     while isinstance(x, ast.Attribute):
         if x.attr in PROP_GET:
             raise Unsupported('element of a display reads the property %s' % x.attr)
@@ -174,12 +336,19 @@ def sum_over_display(g):
     if len(g.generators) != 1:
         raise Unsupported('sum over nested generators')
     gen = g.generators[0]
-    if not (isinstance(gen.target, ast.Name) and isinstance(gen.iter, (ast.Tuple, ast.List)) and len(gen.ifs) <= 1
+    it = gen.iter
+    if isinstance(it, ast.Call) and isinstance(it.func, ast.Name) and it.func.id == 'range' and len(it.args) == 1 \
+            and not it.keywords and isinstance(it.args[0], ast.Constant) and type(it.args[0].value) is int \
+            and 0 <= it.args[0].value <= 16:
+        # sum(elt for k in range(3))  ==  sum(elt for k in (0, 1, 2))
+        BUILTINS_SEEN.append('range')
+        it = ast.Tuple(elts=[ast.Constant(value=i) for i in range(it.args[0].value)], ctx=ast.Load())
+    if not (isinstance(gen.target, ast.Name) and isinstance(it, (ast.Tuple, ast.List)) and len(gen.ifs) <= 1
             and not gen.is_async):
         raise Unsupported('sum over %s' % ast.dump(gen.iter)[:80])
     import copy
     r = '(EConst (VNum 0))'
-    for x in gen.iter.elts:
+    for x in it.elts:
         pure(x)
         elt = Subst(gen.target.id, x).visit(copy.deepcopy(g.elt))
         term = expr(elt)
@@ -194,6 +363,9 @@ def sum_over_display(g):
 # translation targets (filled by generate()); methods are registered as ".name" with self first
 CALLABLE = {}
 CALLS_SEEN = []
+# Python builtins printed as primitives in the body being translated (abs, reversed): translate_function refuses
+# the target when the module binds one of these names itself
+NAMED_BUILTINS_SEEN = []
 # functions outside the translated subset that a body may call: they stay oracles ([ocall] with a hypothesis in
 # the theorem, recorded in the trusted base), name -> parameter names
 EXTERNAL = {
@@ -204,9 +376,26 @@ EXTERNAL = {
                    {'dx': '(EConst (VNum (0#1)))', 'dy': '(EConst (VNum (0#1)))',
                     'ignore_floats': '(EConst (VBool false))'}),
     '.page_values': (['self'], {}),
+    # layout/percent.py: sets the used widths, margins, paddings, border widths as attributes of `box`
+    'resolve_percentages': (['box', 'containing_block'], {}),
     # OrientedBox.restore_box_attributes copies margin_a / margin_b / inner back to the real box
     '.restore_box_attributes': (['self'], {}),
+    # CounterStyle.render_value calling itself (decimal / fallback style): an oracle in the slices of its own body
+    '.render_value': (['self', 'counter_value', 'counter_name', 'counter', 'previous_types'],
+                      {'counter_name': '(EConst VNone)', 'counter': '(EConst VNone)',
+                       'previous_types': '(EConst VNone)'}),
+    # the builtin hasattr(obj, 'name'), the name a compile-time constant (after specialise()): whether the object has
+    # the attribute is stated by the theorems (an entry of the association list that represents the object)
+    'hasattr': (['obj', 'name'], {}),
+    # image.get_intrinsic_size(image_resolution, font_size) of the replacement object (images.py): (width, height, ratio)
+    '.get_intrinsic_size': (['self', 'image_resolution', 'font_size'], {}),
 }
+# oracles declared by ONE target (option 'oracle_stmts': name -> (parameters, mutated parameters)), in force while that
+# target is printed (set by generate()): the statement `f(a, b)` is printed like the statements of EXTERNAL_STMT, as
+# %call, m1, .. = f(a, b), also when `f` is the name of a translation target (the name as bound in THAT function is
+# another object, e.g. the decorated block_level_width imported inside replaced_box_width); a function-level
+# `from m import f` of such a name is printed as SPass (it only binds the callee of the oracle)
+TARGET_ORACLE = {}
 # external functions that may be called as a STATEMENT `f(a, b)` (their effect is outside the translated subset):
 # name -> the parameters whose object the callee may mutate.  The embedding has value semantics, so the statement is
 # printed as the unpacking  %call, m1, .., mk = f(a, b) : the oracle answers the list [returned value; state of m1
@@ -218,6 +407,7 @@ EXTERNAL_STMT = {
     'justify_line': ['line'],
     'resolve_position_percentages': ['box'],
     '.translate': ['self'],
+    'resolve_percentages': ['box'],
 }
 
 
@@ -228,6 +418,8 @@ def call(e):
         name, args = '.' + e.func.attr, [e.func.value] + list(e.args)
     else:
         raise Unsupported(ast.dump(e)[:200])
+    if name in TARGET_ORACLE:
+        raise Unsupported('%s is a statement oracle of this target: not callable in an expression' % name)
     if name in CALLABLE:
         params, defaults = CALLABLE[name]
     elif name in EXTERNAL:
@@ -279,6 +471,23 @@ def call_stmt(e):
     return '(SUnpack [%s] %s)' % ('; '.join(targets), text)
 
 
+def oracle_stmt(e):
+    """statement-level call `f(a, b)` of an oracle declared by the target being printed (see TARGET_ORACLE): positional
+    arguments only, exactly the declared parameters; the mutated ones must be plain names and are rebound"""
+    name = e.func.id
+    params, mutated = TARGET_ORACLE[name]
+    if e.keywords or len(e.args) != len(params) or any(isinstance(a, ast.Starred) for a in e.args):
+        raise Unsupported('arguments of the oracle statement %s' % name)
+    targets = ['(TVar "%call")']
+    for p_, a in zip(params, e.args):
+        if p_ in mutated:
+            if not isinstance(a, ast.Name):
+                raise Unsupported('argument %s of the oracle statement %s is not a plain name' % (p_, name))
+            targets.append('(TVar %s)' % q(a.id))
+    CALLS_SEEN.append(name)
+    return '(SUnpack [%s] (ECall %s [%s]))' % ('; '.join(targets), q(name), '; '.join(expr(a) for a in e.args))
+
+
 def signature(fn):
     a = fn.args
     if a.vararg or a.kwarg or a.kwonlyargs or a.posonlyargs:
@@ -300,6 +509,10 @@ def target(t):
             # only the plain statement `x.prop = e` is understood (stmt() prints the setter there)
             raise Unsupported('assignment to the property %s in this form' % t.attr)
         return '(TAttr %s %s)' % (q(t.value.id), q(t.attr))
+    if isinstance(t, ast.Subscript) and isinstance(t.value, ast.Name) and isinstance(t.slice, ast.Constant) \
+            and isinstance(t.slice.value, str):
+        # x['k'] = e : a dictionary with string keys is the value VObj of Py.v, whose entry ESubscr reads (e['k'])
+        return '(TAttr %s %s)' % (q(t.value.id), q(t.slice.value))
     raise Unsupported(ast.dump(t)[:200])
 
 
@@ -400,25 +613,60 @@ def stmt(s):
         return 'SPass'
     if isinstance(s, ast.Assert) and s.msg is None:
         return '(SAssert %s)' % expr(s.test)
+    if isinstance(s, ast.Assert) and isinstance(s.msg, ast.Name) and any(
+            isinstance(n, ast.Name) and n.id == s.msg.id and isinstance(n.ctx, ast.Load) for n in ast.walk(s.test)):
+        # `assert test, name` where the test reads `name` itself: the message is evaluated only when the test is false
+        # and is then a bound name (the test has just read it), so the statement raises AssertionError exactly when
+        # `assert test` does; the text of the message is outside the value domain
+        return '(SAssert %s)' % expr(s.test)
+    if isinstance(s, ast.ImportFrom) and s.names and all(
+            a.asname is None and a.name in TARGET_ORACLE for a in s.names):
+        return 'SPass'  # binds only callees of this target's declared oracles (see TARGET_ORACLE)
+    if isinstance(s, ast.Expr) and isinstance(s.value, ast.Call) and isinstance(s.value.func, ast.Name) \
+            and s.value.func.id in TARGET_ORACLE:
+        return oracle_stmt(s.value)
     if isinstance(s, ast.Assign) and len(s.targets) == 1 and isinstance(s.targets[0], ast.Tuple):
         return '(SUnpack [%s] %s)' % ('; '.join(target(t) for t in s.targets[0].elts), expr(s.value))
     if isinstance(s, ast.Assign) and len(s.targets) == 1 and isinstance(s.targets[0], ast.Attribute) \
             and s.targets[0].attr in PROP_GET:
         return property_assignment(s)
+    if isinstance(s, ast.Assign) and len(s.targets) == 1 and isinstance(s.targets[0], ast.Subscript) \
+            and isinstance(s.targets[0].value, ast.Name) \
+            and not isinstance(s.targets[0].slice, (ast.Slice, ast.Tuple, ast.Starred, ast.Constant)):
+        # x[i] = e on a variable holding a list, i a computed index: SSetItem of Py.v (value semantics:
+        # translate_function checks with check_setitem_alias that no second name of the list can see the difference)
+        t = s.targets[0]
+        return '(SSetItem %s %s %s)' % (q(t.value.id), expr(t.slice), expr(s.value))
     if isinstance(s, ast.Assign):
         if len(s.targets) == 1 and isinstance(s.targets[0], ast.Name) and isinstance(s.value, ast.GeneratorExp):
             return 'SPass'  # inlined at its (single) use by InlineGen
         return '(SAssign [%s] %s)' % ('; '.join(target(t) for t in reversed(s.targets)), expr(s.value))
     if isinstance(s, ast.AugAssign) and type(s.op) in BIN:
         return '(SAug %s %s %s)' % (target(s.target), BIN[type(s.op)], expr(s.value))
+    if isinstance(s, ast.AugAssign) and isinstance(s.op, ast.FloorDiv) and isinstance(s.target, ast.Name):
+        # x //= e  ==  x = x // e  for a plain name x (x is read, then e evaluated, then x rebound; numbers have no
+        # in-place floor division of their own)
+        return '(SAssign [(TVar %s)] (EPrim PFloorDiv [(EVar %s); %s]))' % (
+            q(s.target.id), q(s.target.id), expr(s.value))
     if isinstance(s, ast.If):
         return '(SIf %s [%s] [%s])' % (expr(s.test), block(s.body), block(s.orelse))
     if isinstance(s, ast.Return):
         return '(SReturn %s)' % (expr(s.value) if s.value is not None else '(EConst VNone)')
     if isinstance(s, ast.For) and isinstance(s.target, ast.Name) and not s.orelse:
-        if any(isinstance(m, (ast.Break, ast.Continue)) for m in ast.walk(s)):
+        body = fold_continue(list(s.body))
+        if any(isinstance(m, (ast.Break, ast.Continue)) for b in body for m in ast.walk(b)):
             raise Unsupported('break/continue inside a for loop')
-        return '(SFor %s %s [%s])' % (q(s.target.id), expr(s.iter), block(s.body))
+        return '(SFor %s %s [%s])' % (q(s.target.id), expr(s.iter), block(body))
+    if isinstance(s, ast.For) and isinstance(s.target, ast.Tuple) and not s.orelse \
+            and all(isinstance(t, ast.Name) for t in s.target.elts) \
+            and len({t.id for t in s.target.elts}) == len(s.target.elts):
+        # for a, b in it: body  ==  for %item in it: a, b = %item; body   ("%item" is not a Python name; an item that
+        # is not a sequence of that length raises in Python and in SUnpack: TypeError / ValueError)
+        body = fold_continue(list(s.body))
+        if any(isinstance(m, (ast.Break, ast.Continue)) for b in body for m in ast.walk(b)):
+            raise Unsupported('break/continue inside a for loop')
+        unpack = '(SUnpack [%s] (EVar "%%item"))' % '; '.join(target(t) for t in s.target.elts)
+        return '(SFor "%%item" %s [%s; %s])' % (expr(s.iter), unpack, block(body))
     if isinstance(s, ast.Expr) and isinstance(s.value, ast.Call) and isinstance(s.value.func, ast.Attribute) \
             and s.value.func.attr == 'extend' and isinstance(s.value.func.value, ast.Name) \
             and len(s.value.args) == 1:
@@ -453,7 +701,50 @@ def stmt(s):
 
 
 def block(stmts):
+    if OPAQUE[0]:
+        return '; '.join(stmt_or_unsupported(s) for s in stmts)
     return '; '.join(stmt(s) for s in stmts)
+
+
+# Target option 'opaque' (set by translate_function for the targets that ask for it; off for every other target).
+# A statement outside the subset is then not a refusal of the whole function: it is printed as the statement
+#     %unsupported = %unsupported("<first line of its text> #<digest of its ast>")
+# i.e. the call of a function that is never defined ("%unsupported" is not a Python name): EXECUTING it is an error
+# value in Py.v (a theorem that the body returns a value on some inputs therefore proves that no such statement is
+# reached on these inputs, and for them the unprinted text cannot matter), while a function whose paths never run
+# into it is printed exactly as without the option.  Nothing is approximated: the smallest enclosing statement that
+# the printer does not understand is replaced as a whole, and statements that change the meaning of the function
+# even when they are not executed (yield, global / nonlocal, nested definitions, ...) are still refused.
+OPAQUE = [False]
+# option 'str_index' of the target being printed (see expr(): constant subscripts are calls of "%getitem")
+STR_INDEX = [False]
+
+
+def stmt_or_unsupported(s):
+    try:
+        return stmt(s)
+    except Unsupported:
+        for n in ast.walk(s):
+            if isinstance(n, (ast.Yield, ast.YieldFrom, ast.Await, ast.Global, ast.Nonlocal, ast.FunctionDef,
+                              ast.AsyncFunctionDef, ast.ClassDef, ast.Lambda, ast.Import, ast.ImportFrom,
+                              ast.Try, ast.With, ast.AsyncWith, ast.AsyncFor, ast.Delete, ast.NamedExpr)):
+                raise
+        import hashlib
+        first = ast.unparse(s).split('\n')[0]
+        tag = '%s #%s' % (first[:120], hashlib.sha1(ast.dump(s).encode()).hexdigest()[:12])
+        return '(SAssign [(TVar "%%unsupported")] (ECall "%%unsupported" [(EConst (VStr %s))]))' % q(tag)
+
+
+def fold_continue(stmts):
+    """`if c: A; continue` (no else; A possibly empty) followed by the statements R, directly in the body of a `for` (or
+    in the R of a previous such rewriting)  ==  `if c: A` (`pass` when A is empty) `else: R` : going on with the next
+    iteration after A is skipping R, for every input.  Any other `continue` is left in place (and refused by the
+    caller)."""
+    for i, s in enumerate(stmts):
+        if isinstance(s, ast.If) and not s.orelse and isinstance(s.body[-1], ast.Continue):
+            return stmts[:i] + [ast.If(test=s.test, body=list(s.body[:-1]) or [ast.Pass()],
+                                       orelse=fold_continue(stmts[i + 1:]))]
+    return stmts
 
 
 class InlineGen(ast.NodeTransformer):
@@ -589,12 +880,160 @@ def check_adapter_classes(tree, classes, base):
             raise Unsupported('%s is not a plain subclass of %s' % (c, base))
 
 
-def translate_function(fn, name, slice_from=None, params=None, after_unpack=None, tree=None):
+def bound_method_aliases(fn, body):
+    """`f = obj.m` at the top level of the translated statements, where `.m` is a translated (or external) method and
+    f is CALLED later: every call `f(args)` is printed as the method call `obj.m(args)` and the alias statement as
+    `pass`.  In Python the statement looks the method up once (no effect: methods are resolved by name, the receiver
+    is trusted to be an instance of the class of the target) and the bound method keeps the object that obj names at
+    that moment; so the rewriting preserves the meaning when, as checked here: obj and f are plain names, f is bound
+    by this statement only (not a parameter, no other store, no del / global / nonlocal / nested function), obj is
+    bound nowhere in the function except as a parameter, f is read only as the callee of calls, and every such call
+    lies in a statement after the alias at the same level."""
+    out = list(body)
+    for i, s in enumerate(body):
+        if not (isinstance(s, ast.Assign) and len(s.targets) == 1 and isinstance(s.targets[0], ast.Name)
+                and isinstance(s.value, ast.Attribute) and isinstance(s.value.value, ast.Name)
+                and ('.' + s.value.attr in CALLABLE or '.' + s.value.attr in EXTERNAL)
+                and s.value.attr not in PROP_GET):
+            continue
+        f, obj, m = s.targets[0].id, s.value.value.id, s.value.attr
+        called = [n for n in ast.walk(fn) if isinstance(n, ast.Call) and isinstance(n.func, ast.Name) and n.func.id == f]
+        if not called:
+            continue
+        for n in ast.walk(fn):
+            if isinstance(n, (ast.FunctionDef, ast.Lambda, ast.Global, ast.Nonlocal, ast.Delete)) and n is not fn:
+                raise Unsupported('%s inside %s, which aliases the bound method %s.%s' % (type(n).__name__, fn.name, obj, m))
+            if isinstance(n, ast.Name) and n.id == f and not isinstance(n.ctx, ast.Load) and n is not s.targets[0]:
+                raise Unsupported('the bound-method alias %s is rebound' % f)
+            if isinstance(n, ast.Name) and n.id == obj and not isinstance(n.ctx, ast.Load):
+                raise Unsupported('%s, whose method %s is aliased, is rebound' % (obj, m))
+            if isinstance(n, ast.arg) and n.arg == f:
+                raise Unsupported('the bound-method alias %s is a parameter' % f)
+        callees = set(id(n.func) for n in called)
+        later = set()
+        for t in body[i + 1:]:
+            later.update(id(n) for n in ast.walk(t))
+        for n in ast.walk(fn):
+            if isinstance(n, ast.Name) and n.id == f and isinstance(n.ctx, ast.Load):
+                if id(n) not in callees:
+                    raise Unsupported('the bound-method alias %s is used other than as a callee' % f)
+                if id(n) not in later:
+                    raise Unsupported('the bound-method alias %s is called outside the statements after its binding' % f)
+        import copy
+
+        class Re(ast.NodeTransformer):
+            def visit_Call(self, n):
+                self.generic_visit(n)
+                if isinstance(n.func, ast.Name) and n.func.id == f:
+                    n.func = ast.Attribute(value=ast.Name(id=obj, ctx=ast.Load()), attr=m, ctx=ast.Load())
+                return n
+        out = [ast.Pass() if t is s else (Re().visit(copy.deepcopy(t)) if j > i else t) for j, t in enumerate(out)]
+    return out
+
+
+def slice_in_for(fn, first, last, then=()):
+    """The statements, inside the body of the only top-level `for` loop of fn that assigns `first` at the top level of
+    its body, from the first assignment `first = ...` through the first assignment `last = ...` after it (both
+    plain-name assignments at the top level of the loop body).  Checked: no name bound by these statements is bound
+    again anywhere else in the loop (so what the rest of the iteration reads under these names are the values
+    computed by the slice), and the statements contain no nested loop / function.  `then`: expressions (source text,
+    compared after ast.unparse) that must occur in the loop after the slice - the consumers of the values, so that a
+    change of what is handed on (another matrix given to add_links) is refused rather than missed."""
+    def assigns(s, nm):
+        return isinstance(s, ast.Assign) and len(s.targets) == 1 and isinstance(s.targets[0], ast.Name) \
+            and s.targets[0].id == nm
+    loops = [x for x in fn.body if isinstance(x, ast.For) and any(assigns(s, first) for s in x.body)]
+    if len(loops) != 1:
+        raise Unsupported('%d top-level for loops of %s assign %s' % (len(loops), fn.name, first))
+    loop = loops[0]
+    if loop.orelse:
+        raise Unsupported('else clause of the loop of %s' % fn.name)
+    i = [k for k, s in enumerate(loop.body) if assigns(s, first)][0]
+    js = [k for k, s in enumerate(loop.body) if k >= i and assigns(s, last)]
+    if not js:
+        raise Unsupported('no assignment of %s after the one of %s in the loop of %s' % (last, first, fn.name))
+    sl = loop.body[i:js[0] + 1]
+    inside = set()
+    for s in sl:
+        for n in ast.walk(s):
+            inside.add(id(n))
+            if isinstance(n, (ast.For, ast.While, ast.FunctionDef, ast.Lambda, ast.Global, ast.Nonlocal, ast.Delete,
+                              ast.NamedExpr)):
+                raise Unsupported('%s inside the slice %s..%s of %s' % (type(n).__name__, first, last, fn.name))
+    bound = set(n.id for s in sl for n in ast.walk(s) if isinstance(n, ast.Name) and not isinstance(n.ctx, ast.Load))
+    for n in ast.walk(loop):
+        if id(n) in inside:
+            continue
+        if isinstance(n, ast.Name) and n.id in bound and not isinstance(n.ctx, ast.Load):
+            raise Unsupported('%s, bound by the slice %s..%s, is bound again in the loop of %s' % (n.id, first, last, fn.name))
+        if isinstance(n, (ast.Global, ast.Nonlocal)) and set(n.names) & bound:
+            raise Unsupported('global / nonlocal declaration of a name of the slice %s..%s' % (first, last))
+        if isinstance(n, ast.arg) and n.arg in bound:
+            raise Unsupported('%s, bound by the slice %s..%s, is a parameter of a nested function' % (n.arg, first, last))
+    after = set()
+    for st in loop.body[js[0] + 1:]:
+        for n in ast.walk(st):
+            if isinstance(n, ast.expr):
+                after.add(ast.unparse(n))
+    for text in then:
+        if ast.unparse(ast.parse(text, mode='eval').body) not in after:
+            raise Unsupported('the loop of %s does not contain `%s` after the slice %s..%s' % (fn.name, text, first, last))
+    return sl
+
+
+def select_branch(fn, var, value):
+    """The body of the branch `var == 'value'` of the (unique) top-level `if var == 'a': .. elif var == 'b': ..` chain
+    of fn.  Every test of the chain must be `var == <string constant>` with pairwise distinct constants, so that the
+    branch is the one executed exactly when var == 'value' (the tests before it are false and have no effect); a
+    final `else:` is allowed and ignored.  The statements before and after the chain are not translated."""
+    def test_const(t):
+        if isinstance(t, ast.Compare) and len(t.ops) == 1 and isinstance(t.ops[0], ast.Eq) \
+                and isinstance(t.left, ast.Name) and t.left.id == var \
+                and isinstance(t.comparators[0], ast.Constant) and isinstance(t.comparators[0].value, str):
+            return t.comparators[0].value
+        return None
+    chains = []
+    for s in fn.body:
+        if isinstance(s, ast.If) and test_const(s.test) is not None:
+            chain, node = [], s
+            while True:
+                c = test_const(node.test)
+                if c is None:
+                    raise Unsupported('test %s in the chain on %s' % (ast.unparse(node.test)[:60], var))
+                chain.append((c, node.body))
+                if len(node.orelse) == 1 and isinstance(node.orelse[0], ast.If):
+                    node = node.orelse[0]
+                else:
+                    break
+            chains.append(chain)
+    if len(chains) != 1:
+        raise Unsupported('%d if-chains on %s at the top level of %s' % (len(chains), var, fn.name))
+    consts = [c for c, _ in chains[0]]
+    if len(set(consts)) != len(consts):
+        raise Unsupported('the chain on %s tests a constant twice' % var)
+    if value not in consts:
+        raise Unsupported('no branch %s == %r in %s' % (var, value, fn.name))
+    body = dict(chains[0])[value]
+    for s in body:
+        for x in ast.walk(s):
+            if isinstance(x, ast.Name) and x.id == var and not isinstance(x.ctx, ast.Load):
+                raise Unsupported('%s is rebound inside its own branch' % var)
+    return list(body)
+
+
+def translate_function(fn, name, slice_from=None, params=None, after_unpack=None, tree=None, in_for=None):
     """fn: ast.FunctionDef.  slice_from: name of the variable whose first assignment starts the translated
     slice (the statements before it are *not* translated; `params` are then the free variables).
-    after_unpack = (xs, adapter base class): the slice starts after `a, b, c = xs` (see slice_after_unpack)."""
+    after_unpack = (xs, adapter base class): the slice starts after `a, b, c = xs` (see slice_after_unpack).
+    in_for = (first, last): the statements first = ... through last = ... of a top-level loop (see slice_in_for)."""
+    CURRENT[:] = [fn, tree]
+    # the option 'opaque' of the target with this Coq name (see stmt_or_unsupported); off for every other target
+    OPAQUE[0] = any(c == name and x.get('opaque') for _, ts in TARGETS.values() for _, _, c, x in ts)
+    STR_INDEX[0] = any(c == name and x.get('str_index') for _, ts in TARGETS.values() for _, _, c, x in ts)
     body = list(fn.body)
-    if after_unpack is not None:
+    if in_for is not None:
+        body = slice_in_for(fn, *in_for)
+    elif after_unpack is not None:
         xs, base = after_unpack
         i, names, classes = slice_after_unpack(fn, xs, base)
         check_adapter_classes(tree, classes, base)
@@ -634,6 +1073,18 @@ def translate_function(fn, name, slice_from=None, params=None, after_unpack=None
         if not ifs:
             raise Unsupported('no if statement at the top level of %s' % fn.name)
         body = ifs[:1]
+    elif isinstance(slice_from, tuple) and slice_from[0] == '<branch>':
+        body = select_branch(fn, slice_from[1], slice_from[2])
+    elif slice_from is not None and slice_from.startswith('<binds:'):
+        # from the first top-level statement (of any kind: an `if` whose branches assign it, a loop, ...) inside which
+        # the name is a target, to the end of the function
+        name_ = slice_from[len('<binds:'):-1]
+        for i, s in enumerate(body):
+            if any(isinstance(x, ast.Name) and x.id == name_ and not isinstance(x.ctx, ast.Load) for x in ast.walk(s)):
+                body = body[i:]
+                break
+        else:
+            raise Unsupported('no statement of %s binds %s' % (fn.name, name_))
     elif slice_from is not None:
         for i, s in enumerate(body):
             if isinstance(s, ast.Assign) and len(s.targets) == 1 and isinstance(s.targets[0], ast.Name) \
@@ -642,21 +1093,77 @@ def translate_function(fn, name, slice_from=None, params=None, after_unpack=None
                 break
         else:
             raise Unsupported('slice start %s not found in %s' % (slice_from, fn.name))
+    body = bound_method_aliases(fn, body)
     gens = {}
     for s in body:
         if isinstance(s, ast.Assign) and len(s.targets) == 1 and isinstance(s.targets[0], ast.Name) \
                 and isinstance(s.value, ast.GeneratorExp):
             gens[s.targets[0].id] = s.value
+    check_setitem_alias(body)
     mod = ast.Module(body=body, type_ignores=[])
     ig = InlineGen(gens)
     mod = ig.visit(mod)
     for k, n in ig.uses.items():
         if n != 1:
             raise Unsupported('generator %s used %d times' % (k, n))
+    del NAMED_BUILTINS_SEEN[:]
     text = block(mod.body)
+    for b_ in sorted(set(NAMED_BUILTINS_SEEN)):
+        if tree is None:
+            raise Unsupported('builtin %s used where the module is not known' % b_)
+        check_named_builtin(tree, b_)
     args = params if params is not None else [a.arg for a in fn.args.args]
     return 'Definition %s_args : list string := [%s].\nDefinition %s_body : list stmt := [%s].\n' % (
         name, '; '.join(q(a) for a in args), name, text)
+
+
+# classes whose constructor call `C(...)` is a translation target (kind 'ctor'), filled by generate()
+CTORS = set()
+
+
+def translate_ctor(tree, clsname, name):
+    """`C(args)` for a module-level class `class C(list)` without __new__ / metaclass / decorator whose __init__
+    ends with the statement `super().__init__(X)` and mentions neither self nor super elsewhere, and returns nowhere:
+    the new object is a list holding the elements of X.  Lists are values in Py.v, so the constructor is printed as
+    the function (parameters of __init__ without self) whose body is the body of __init__ with that last statement
+    replaced by `return [r for r in X]` (r is not a Python name: "%r"); an X that is not a list raises in both.
+    The methods of C are resolved by name, like all methods."""
+    cls = [n for n in tree.body if isinstance(n, ast.ClassDef) and n.name == clsname]
+    if len(cls) != 1:
+        raise Unsupported('class %s not found (or defined twice)' % clsname)
+    cls = cls[0]
+    if cls.keywords or cls.decorator_list or [ast.unparse(b) for b in cls.bases] != ['list']:
+        raise Unsupported('class %s is not a plain subclass of list' % clsname)
+    inits = [m for m in cls.body if isinstance(m, ast.FunctionDef) and m.name == '__init__']
+    if len(inits) != 1 or inits[0].decorator_list \
+            or any(isinstance(m, ast.FunctionDef) and m.name in ('__new__', '__init_subclass__', '__class_getitem__')
+                   for m in cls.body):
+        raise Unsupported('constructor of %s' % clsname)
+    init = inits[0]
+    params, defaults = signature(init)
+    if not params or params[0] != 'self' or 'self' in params[1:]:
+        raise Unsupported('signature of %s.__init__' % clsname)
+    last = init.body[-1]
+    ok = (isinstance(last, ast.Expr) and isinstance(last.value, ast.Call) and not last.value.keywords
+          and len(last.value.args) == 1 and not isinstance(last.value.args[0], ast.Starred)
+          and isinstance(last.value.func, ast.Attribute) and last.value.func.attr == '__init__'
+          and isinstance(last.value.func.value, ast.Call) and isinstance(last.value.func.value.func, ast.Name)
+          and last.value.func.value.func.id == 'super' and not last.value.func.value.args
+          and not last.value.func.value.keywords)
+    if not ok:
+        raise Unsupported('%s.__init__ does not end with super().__init__(X)' % clsname)
+    x = last.value.args[0]
+    for st in init.body[:-1] + [ast.Expr(value=x)]:
+        for n in ast.walk(st):
+            if isinstance(n, ast.Name) and n.id in ('self', 'super'):
+                raise Unsupported('%s.__init__ uses %s before super().__init__(X)' % (clsname, n.id))
+            if isinstance(n, (ast.Return, ast.Yield, ast.YieldFrom, ast.FunctionDef, ast.Lambda, ast.Global, ast.Nonlocal)):
+                raise Unsupported('%s inside %s.__init__' % (type(n).__name__, clsname))
+    copy_x = ast.ListComp(elt=ast.Name(id='%r', ctx=ast.Load()), generators=[ast.comprehension(
+        target=ast.Name(id='%r', ctx=ast.Store()), iter=x, ifs=[], is_async=0)])
+    text = block(init.body[:-1] + [ast.Return(value=copy_x)])
+    return 'Definition %s_args : list string := [%s].\nDefinition %s_body : list stmt := [%s].\n' % (
+        name, '; '.join(q(a) for a in params[1:]), name, text)
 
 
 def literal_table(tree, varname, name):
@@ -720,6 +1227,254 @@ def q_table(tree, src, varname, name):
     raise Unsupported('table %s not found' % varname)
 
 
+def class_table(tree, varname, name, module):
+    """Module-level `VAR = {('k1', 'k2'): module.ClassName, ...}` (bound exactly once in the module, keys tuples of
+    string literals, values attributes of the imported module `module`) -> list (val * string): the key as the
+    VList of its strings, the class by its name.  A duplicate key is refused (Python keeps the last one)."""
+    binds = [n for n in ast.walk(tree) if isinstance(n, ast.Name) and n.id == varname and not isinstance(n.ctx, ast.Load)]
+    defs = [s for s in tree.body if isinstance(s, ast.Assign) and len(s.targets) == 1
+            and isinstance(s.targets[0], ast.Name) and s.targets[0].id == varname]
+    if len(defs) != 1 or len(binds) != 1:
+        raise Unsupported('table %s is not bound exactly once at the top level' % varname)
+    for n in ast.walk(tree):
+        # VAR[k] = v / del VAR[k] / VAR.update(...) would change the table after its display
+        if isinstance(n, ast.Subscript) and isinstance(n.value, ast.Name) and n.value.id == varname \
+                and not isinstance(n.ctx, ast.Load):
+            raise Unsupported('table %s is modified by a subscript assignment' % varname)
+        if isinstance(n, ast.Attribute) and isinstance(n.value, ast.Name) and n.value.id == varname:
+            raise Unsupported('table %s: method / attribute %s is used' % (varname, n.attr))
+    d = defs[0].value
+    if not isinstance(d, ast.Dict):
+        raise Unsupported('table %s: not a dict display' % varname)
+    rows, seen = [], set()
+    for k, v in zip(d.keys, d.values):
+        if not (isinstance(k, ast.Tuple) and k.elts and all(
+                isinstance(x, ast.Constant) and isinstance(x.value, str) for x in k.elts)):
+            raise Unsupported('table %s: key %s' % (varname, ast.dump(k)[:60] if k is not None else '**'))
+        key = tuple(x.value for x in k.elts)
+        if key in seen:
+            raise Unsupported('table %s: duplicate key %r' % (varname, key))
+        seen.add(key)
+        if not (isinstance(v, ast.Attribute) and isinstance(v.value, ast.Name) and v.value.id == module):
+            raise Unsupported('table %s: value %s' % (varname, ast.dump(v)[:60]))
+        rows.append('(%s, %s)' % (const(key), q(v.attr)))
+    return 'Definition %s : list (val * string) := [%s].\n' % (name, '; '.join(rows))
+
+
+def check_computer(tree, fn, names):
+    """`fn` is the function that `register_computer` registers for exactly the CSS properties `names`, and no other
+    function of the module is registered for one of them (a later registration would replace it in
+    COMPUTER_FUNCTIONS); its decorators are only such registrations (they return the function unchanged)."""
+    def registered(f):
+        out = []
+        for d in f.decorator_list:
+            if isinstance(d, ast.Call) and isinstance(d.func, ast.Name) and d.func.id == 'register_computer' \
+                    and len(d.args) == 1 and not d.keywords and isinstance(d.args[0], ast.Constant) \
+                    and isinstance(d.args[0].value, str):
+                out.append(d.args[0].value)
+            else:
+                out.append(None)
+        return out
+    mine = registered(fn)
+    if None in mine or sorted(mine) != sorted(names):
+        raise Unsupported('%s is not registered as the computer of exactly %s' % (fn.name, sorted(names)))
+    for f in ast.walk(tree):
+        if isinstance(f, (ast.FunctionDef, ast.AsyncFunctionDef)) and f is not fn and set(registered(f)) & set(names):
+            raise Unsupported('%s is also registered as a computer of %s' % (f.name, sorted(names)))
+        if isinstance(f, ast.Subscript) and isinstance(f.value, ast.Name) and f.value.id == 'COMPUTER_FUNCTIONS' \
+                and not isinstance(f.ctx, ast.Load) and not (
+                    isinstance(f.slice, ast.Name) and f.slice.id == 'name'):
+            raise Unsupported('COMPUTER_FUNCTIONS is modified outside register_computer')
+
+
+class ConstProp(ast.NodeTransformer):
+    """The rewritings of specialise(): see there."""
+    def __init__(self, consts):
+        self.consts = consts
+
+    def visit_Name(self, n):
+        if n.id in self.consts:
+            if not isinstance(n.ctx, ast.Load):
+                raise Unsupported('the specialised parameter %s is rebound' % n.id)
+            return ast.copy_location(ast.Constant(value=self.consts[n.id]), n)
+        return n
+
+    def visit_JoinedStr(self, n):
+        self.generic_visit(n)
+        parts = []
+        for v in n.values:
+            if isinstance(v, ast.FormattedValue) and v.conversion == -1 and v.format_spec is None:
+                v = v.value
+            if not (isinstance(v, ast.Constant) and isinstance(v.value, str)):
+                raise Unsupported('f-string with a part that is not a compile-time string constant')
+            parts.append(v.value)
+        return ast.copy_location(ast.Constant(value=''.join(parts)), n)
+
+    @staticmethod
+    def attr_name(a, what):
+        if not (isinstance(a, ast.Constant) and isinstance(a.value, str) and a.value.isidentifier()):
+            raise Unsupported('%s with a name that is not a compile-time constant' % what)
+        return a.value
+
+    def visit_Call(self, n):
+        self.generic_visit(n)
+        if isinstance(n.func, ast.Name) and n.func.id == 'getattr':
+            if len(n.args) != 2 or n.keywords:
+                raise Unsupported('getattr with a default')
+            return ast.copy_location(
+                ast.Attribute(value=n.args[0], attr=self.attr_name(n.args[1], 'getattr'), ctx=ast.Load()), n)
+        return n
+
+    def visit_Expr(self, n):
+        self.generic_visit(n)
+        c = n.value
+        if isinstance(c, ast.Call) and isinstance(c.func, ast.Name) and c.func.id == 'setattr':
+            if len(c.args) != 3 or c.keywords or not isinstance(c.args[0], ast.Name):
+                raise Unsupported('setattr on something that is not a plain name')
+            t = ast.Attribute(value=ast.Name(id=c.args[0].id, ctx=ast.Load()),
+                              attr=self.attr_name(c.args[1], 'setattr'), ctx=ast.Store())
+            return ast.copy_location(ast.Assign(targets=[t], value=c.args[2]), n)
+        return n
+
+
+def cp_block(stmts, known, params):
+    """Constant propagation through a list of statements (see specialise()).  known: name -> string constant, valid at
+    the entry of the list: the specialised parameters (`params`, never rebound) and the locals whose last binding, on
+    every path to this point, is the plain statement `x = <string constant>`.  A statement that binds a name anywhere
+    inside it makes that name unknown before it is processed, so what is known at the entry of a compound statement
+    holds throughout its blocks, on every iteration; inside a block knowledge grows again statement by statement."""
+    import copy
+    out = []
+    for s in stmts:
+        stored = {n.id for n in ast.walk(s) if isinstance(n, ast.Name) and not isinstance(n.ctx, ast.Load)}
+        if stored & set(params):
+            raise Unsupported('the specialised parameter %s is rebound' % sorted(stored & set(params)))
+        if isinstance(s, ast.Assign) and len(s.targets) == 1 and isinstance(s.targets[0], ast.Name):
+            s.value = ConstProp(known).visit(s.value)
+            x = s.targets[0].id
+            known = {k: c for k, c in known.items() if k != x}
+            if isinstance(s.value, ast.Constant) and isinstance(s.value.value, str):
+                known[x] = s.value.value
+            out.append(s)
+            continue
+        known = {k: c for k, c in known.items() if k not in stored}
+        if isinstance(s, ast.For) and not s.orelse and any(isinstance(m, ast.Continue) for m in ast.walk(s)):
+            # `if c: continue` directly in the body of the loop becomes `if c: pass` `else: <the rest>` (fold_continue:
+            # meaning-preserving for every loop); a loop over constants may then be unrolled below
+            s.body = fold_continue(list(s.body))
+        if isinstance(s, ast.For) and isinstance(s.iter, (ast.Tuple, ast.List)) and s.iter.elts \
+                and all(isinstance(c, ast.Constant) for c in s.iter.elts) and isinstance(s.target, ast.Name) \
+                and not s.orelse and not any(isinstance(m, (ast.Break, ast.Continue)) for m in ast.walk(s)):
+            # for v in (c1, .., cn): body   ==   v = c1; body; ..; v = cn; body      (a non-empty display of constants,
+            # no break / continue / else: the loop runs the body once per constant, v bound to it, in this order)
+            unrolled = []
+            for c in s.iter.elts:
+                unrolled.append(ast.copy_location(ast.Assign(
+                    targets=[ast.Name(id=s.target.id, ctx=ast.Store())], value=copy.deepcopy(c)), s))
+                unrolled.extend(copy.deepcopy(s.body))
+            more, known = cp_block(unrolled, known, params)
+            out.extend(more)
+            continue
+        if isinstance(s, ast.If):
+            s.test = ConstProp(known).visit(s.test)
+            s.body = cp_block(s.body, known, params)[0]
+            s.orelse = cp_block(s.orelse, known, params)[0]
+        elif isinstance(s, (ast.For, ast.While)):
+            if isinstance(s, ast.For):
+                s.iter = ConstProp(known).visit(s.iter)
+            else:
+                s.test = ConstProp(known).visit(s.test)
+            s.body = cp_block(s.body, known, params)[0]
+            s.orelse = cp_block(s.orelse, known, params)[0]
+        elif isinstance(s, (ast.With, ast.Try, ast.Match if hasattr(ast, 'Match') else ast.With)):
+            raise Unsupported('%s inside a specialised function' % type(s).__name__)
+        else:
+            s = ConstProp(known).visit(s)
+        out.append(s)
+    return out, known
+
+
+class ReplaceTests(ast.NodeTransformer):
+    def __init__(self, tests):
+        self.tests, self.seen = tests, set()
+
+    def visit_Call(self, n):
+        text = ast.unparse(n)
+        if text in self.tests:
+            self.seen.add(text)
+            return ast.copy_location(ast.Name(id=self.tests[text], ctx=ast.Load()), n)
+        self.generic_visit(n)
+        return n
+
+
+def specialise(fn, tree, consts, tests=None, free=None):
+    """Target option 'consts' = {parameter: string}: the function SPECIALISED to these arguments, by constant
+    propagation only.  The parameter is removed from the signature and every read of it becomes the constant; then
+      f'..{c}..' whose parts are all string constants   ==  the concatenated constant (format(s, '') is s for a str)
+      getattr(x, 'name')                                ==  x.name          (definition of getattr)
+      setattr(x, 'name', e)   as a statement, x a name  ==  x.name = e      (definition of setattr; x is a plain name,
+                                                                             so the evaluation order cannot be seen)
+    Nothing else is folded: `if axis == 'width'` stays a comparison of two constants in the printed body and is
+    decided by Py.v.  Refused (fail-closed): a specialised parameter that is rebound, deleted, or shadowed by a nested
+    function / lambda / comprehension; getattr / setattr / an f-string whose name is not a compile-time constant;
+    getattr with a default; setattr as an expression; getattr / setattr rebound in the function or in the module.
+    The propagation also follows the locals bound by a plain `x = <string constant>` (cp_block) and unrolls a `for`
+    over a display of constants into `v = c1; body; v = c2; body; ..` (same function).
+    Option 'tests' = {"isinstance(x, boxes.PageBox)": name}: the class of an object is outside the value domain of
+    Py.v; the test (x a parameter that is never rebound, the text exactly as unparsed) is replaced by the new
+    parameter `name`, an input of the translated body: its truth value when the function is entered, which is its
+    value at every later point since neither x nor the names of the test can be rebound by the translated subset.
+    Option 'free' = [names]: names read but never bound in the function (module-level bindings such as `inf`) become
+    parameters: their value is an input of the translated body."""
+    import copy
+    fn = copy.deepcopy(fn)
+    tests, free = dict(tests or {}), list(free or [])
+    a = fn.args
+    if a.vararg or a.kwarg or a.kwonlyargs or a.posonlyargs or a.defaults:
+        raise Unsupported('signature of %s (specialisation)' % fn.name)
+    params = [x.arg for x in a.args]
+    for p_, v in consts.items():
+        if p_ not in params or not isinstance(v, str):
+            raise Unsupported('%s is not a positional parameter of %s / not specialised to a string' % (p_, fn.name))
+    for n in ast.walk(fn):
+        if isinstance(n, (ast.FunctionDef, ast.Lambda, ast.Global, ast.Nonlocal, ast.Delete, ast.NamedExpr)) \
+                and n is not fn:
+            raise Unsupported('%s inside the specialised function %s' % (type(n).__name__, fn.name))
+        if isinstance(n, ast.Name) and n.id in ('getattr', 'setattr') and not isinstance(n.ctx, ast.Load):
+            raise Unsupported('%s is rebound in %s' % (n.id, fn.name))
+        if isinstance(n, ast.arg) and n.arg in ('getattr', 'setattr'):
+            raise Unsupported('%s is a parameter of %s' % (n.arg, fn.name))
+    for n in tree.body:
+        names = [n.name] if isinstance(n, (ast.FunctionDef, ast.ClassDef)) else \
+            [x.asname or x.name for x in n.names] if isinstance(n, (ast.Import, ast.ImportFrom)) else \
+            [x.id for x in ast.walk(n) if isinstance(x, ast.Name) and not isinstance(x.ctx, ast.Load)]
+        if 'getattr' in names or 'setattr' in names or '*' in names:
+            raise Unsupported('getattr / setattr may be rebound at the module level')
+    a.args = [x for x in a.args if x.arg not in consts]
+    stored = {n.id for n in ast.walk(fn) if isinstance(n, ast.Name) and not isinstance(n.ctx, ast.Load)}
+    used = {n.id for n in ast.walk(fn) if isinstance(n, ast.Name)} | set(params)
+    for text, name in tests.items():
+        call_ = ast.parse(text, mode='eval').body
+        if not (isinstance(call_, ast.Call) and isinstance(call_.func, ast.Name) and call_.func.id == 'isinstance'
+                and len(call_.args) == 2 and isinstance(call_.args[0], ast.Name) and call_.args[0].id in params
+                and call_.args[0].id not in stored and ast.unparse(call_) == text):
+            raise Unsupported('test %s: not isinstance(<parameter never rebound>, <class>)' % text)
+        if name in used or 'isinstance' in stored or any(
+                isinstance(x, ast.Name) and x.id in stored for x in ast.walk(call_.args[1])):
+            raise Unsupported('test %s: the name %s is in use / the names of the test are rebound' % (text, name))
+    rt = ReplaceTests(tests)
+    fn.body = [rt.visit(s_) for s_ in fn.body]
+    if rt.seen != set(tests):
+        raise Unsupported('tests not found in %s: %s' % (fn.name, sorted(set(tests) - rt.seen)))
+    for name in free:
+        if name in stored or name in params or name not in used:
+            raise Unsupported('%s is not a free name of %s' % (name, fn.name))
+    a.args = a.args + [ast.arg(arg=x) for x in list(tests.values()) + free]
+    fn.body = cp_block(fn.body, dict(consts), list(consts))[0]
+    ast.fix_missing_locations(fn)
+    return fn
+
+
 HEADER = ('(* GENERATED by tools/py2coq.py from %s -- do not edit *)\n'
           'From Coq Require Import QArith List String.\nRequire Import WV.base.Py.\n'
           'Import ListNotations.\nOpen Scope string_scope.\n\n')
@@ -735,6 +1490,55 @@ TARGETS = {
     ]),
     'GenPercent': ('weasyprint/layout/percent.py', [
         ('fun', 'percentage', 'percentage', {}),
+    ]),
+    'GenBoxSizing': ('weasyprint/layout/percent.py', [
+        # adjust_box_sizing(box, axis) specialised to its two call sites (option 'consts': constant propagation of
+        # the parameter; getattr / setattr / f'max_{axis}' become plain attribute accesses, see specialise())
+        ('fun', 'adjust_box_sizing', 'adjust_box_sizing_width',
+         {'consts': {'axis': 'width'}, 'call_as': 'adjust_box_sizing[width]'}),
+        ('fun', 'adjust_box_sizing', 'adjust_box_sizing_height',
+         {'consts': {'axis': 'height'}, 'call_as': 'adjust_box_sizing[height]'}),
+    ]),
+    'GenResolve': ('weasyprint/layout/percent.py', [
+        # resolve_one_percentage(box, property_name, refer_to) specialised to the 14 property names resolve_percentages
+        # passes to it (option 'consts'; its call of percentage() is linked to GenPercent)
+        ('fun', 'resolve_one_percentage', 'resolve_one_margin_left',
+         {'consts': {'property_name': 'margin_left'}, 'call_as': 'resolve_one_percentage[margin_left]'}),
+        ('fun', 'resolve_one_percentage', 'resolve_one_margin_right',
+         {'consts': {'property_name': 'margin_right'}, 'call_as': 'resolve_one_percentage[margin_right]'}),
+        ('fun', 'resolve_one_percentage', 'resolve_one_margin_top',
+         {'consts': {'property_name': 'margin_top'}, 'call_as': 'resolve_one_percentage[margin_top]'}),
+        ('fun', 'resolve_one_percentage', 'resolve_one_margin_bottom',
+         {'consts': {'property_name': 'margin_bottom'}, 'call_as': 'resolve_one_percentage[margin_bottom]'}),
+        ('fun', 'resolve_one_percentage', 'resolve_one_padding_left',
+         {'consts': {'property_name': 'padding_left'}, 'call_as': 'resolve_one_percentage[padding_left]'}),
+        ('fun', 'resolve_one_percentage', 'resolve_one_padding_right',
+         {'consts': {'property_name': 'padding_right'}, 'call_as': 'resolve_one_percentage[padding_right]'}),
+        ('fun', 'resolve_one_percentage', 'resolve_one_padding_top',
+         {'consts': {'property_name': 'padding_top'}, 'call_as': 'resolve_one_percentage[padding_top]'}),
+        ('fun', 'resolve_one_percentage', 'resolve_one_padding_bottom',
+         {'consts': {'property_name': 'padding_bottom'}, 'call_as': 'resolve_one_percentage[padding_bottom]'}),
+        ('fun', 'resolve_one_percentage', 'resolve_one_width',
+         {'consts': {'property_name': 'width'}, 'call_as': 'resolve_one_percentage[width]'}),
+        ('fun', 'resolve_one_percentage', 'resolve_one_min_width',
+         {'consts': {'property_name': 'min_width'}, 'call_as': 'resolve_one_percentage[min_width]'}),
+        ('fun', 'resolve_one_percentage', 'resolve_one_max_width',
+         {'consts': {'property_name': 'max_width'}, 'call_as': 'resolve_one_percentage[max_width]'}),
+        ('fun', 'resolve_one_percentage', 'resolve_one_height',
+         {'consts': {'property_name': 'height'}, 'call_as': 'resolve_one_percentage[height]'}),
+        ('fun', 'resolve_one_percentage', 'resolve_one_min_height',
+         {'consts': {'property_name': 'min_height'}, 'call_as': 'resolve_one_percentage[min_height]'}),
+        ('fun', 'resolve_one_percentage', 'resolve_one_max_height',
+         {'consts': {'property_name': 'max_height'}, 'call_as': 'resolve_one_percentage[max_height]'}),
+        # resolve_percentages: its calls of resolve_one_percentage / adjust_box_sizing mutate the box: printed as
+        # %call, box = f(box, 'name', refer_to) (oracle statements; the theorems link them to the specialisations above
+        # and to GenBoxSizing by the constant name); isinstance(box, boxes.PageBox) and `inf` are inputs; the loop over
+        # the four sides is unrolled and its f-string / setattr / hasattr names are constants (see specialise())
+        ('fun', 'resolve_percentages', 'resolve_percentages', {
+            'consts': {}, 'tests': {'isinstance(box, boxes.PageBox)': 'box_is_page'}, 'free': ['inf'],
+            'call_as': 'resolve_percentages[]',
+            'oracle_stmts': {'resolve_one_percentage': (['box', 'property_name', 'refer_to'], ['box']),
+                             'adjust_box_sizing': (['box', 'axis'], ['box'])}}),
     ]),
     'GenReplaced': ('weasyprint/layout/replaced.py', [
         ('fun', '_constraint_image_sizing', 'constraint_image_sizing', {}),
@@ -803,8 +1607,99 @@ TARGETS = {
     'GenMedia': ('weasyprint/css/media_queries.py', [
         ('fun', 'evaluate_media_query', 'evaluate_media_query', {}),
     ]),
+    'GenAnchors': ('weasyprint/anchors.py', [
+        # `transform_point = matrix.transform_point` : see bound_method_aliases
+        ('fun', 'rectangle_aabb', 'rectangle_aabb', {}),
+    ]),
+    'GenMatrix': ('weasyprint/matrix.py', [
+        # Matrix(a, b, c, d, e, f, matrix): the list that Matrix.__init__ hands to list.__init__ (see translate_ctor)
+        ('ctor', 'Matrix', 'Matrix_init', {}),
+        # a @ b (3x3 product; `sum(... for k in range(3))` unrolled, see sum_over_display)
+        ('fun', 'Matrix.__matmul__', 'matmul', {}),
+        ('fun', 'Matrix.transform_point', 'transform_point', {}),
+    ]),
+    'GenPdfPage': ('weasyprint/pdf/__init__.py', [
+        # per page: the CSS px -> PDF point matrix handed to add_links / add_annotations / add_forms, the bleed
+        # offsets and the MediaBox numbers (statements `matrix = ...` through `page_rectangle = ...` of the page loop)
+        ('fun', 'generate_pdf', 'page_geometry', {'in_for': ('matrix', 'page_rectangle', [
+            'add_links(links_and_anchors, matrix, pdf, pdf_page, pdf_names, mark)',
+            'add_annotations(links_and_anchors[0], matrix, document, pdf, pdf_page, annot_files, compress)',
+            'pydyf.Array([left, top, right, bottom])']), 'params': ['scale', 'page']}),
+        # the TrimBox numbers (bleed = the page's bleed at scale, built by a dict comprehension outside the slice)
+        ('fun', 'generate_pdf', 'page_trim', {'in_for': ('trim_left', 'trim_bottom', [
+            'pydyf.Array([trim_left, trim_top, trim_right, trim_bottom])']), 'params': [
+            'left', 'top', 'right', 'bottom', 'bleed']}),
+    ]),
+    'GenCounters': ('weasyprint/css/counters.py', [
+        ('fun', 'symbol', 'symbol', {}),
+        # CounterStyle.render_value, step 3: the bodies of the branches of `if system == 'cyclic': .. elif ..`
+        # (free variables as parameters; each ends with `initial` bound, or returns the value of the recursive call
+        # for the decimal / fallback style, an oracle).  `// len abs x[i] ''.join(reversed(..))` are primitives of Py.v, `%` the builtin "%mod"
+        ('fun', 'CounterStyle.render_value', 'rv_cyclic', {
+            'slice_from': ('<branch>', 'system', 'cyclic'), 'params': ['self', 'counter', 'counter_value']}),
+        ('fun', 'CounterStyle.render_value', 'rv_fixed', {
+            'slice_from': ('<branch>', 'system', 'fixed'),
+            'params': ['self', 'counter', 'counter_value', 'fixed_number', 'previous_types']}),
+        ('fun', 'CounterStyle.render_value', 'rv_alphabetic', {
+            'slice_from': ('<branch>', 'system', 'alphabetic'), 'params': ['self', 'counter', 'counter_value']}),
+        ('fun', 'CounterStyle.render_value', 'rv_numeric', {
+            'slice_from': ('<branch>', 'system', 'numeric'), 'params': ['self', 'counter', 'counter_value']}),
+    ]),
+    'GenTable': ('weasyprint/layout/table.py', [
+        # fixed_table_layout from the choice of the horizontal border spacing on: the pass over the cells of the
+        # first row (colspan cells share what their columns do not have yet), the equal shares of the columns that
+        # are still unknown, the distribution of the extra width, table.width / table.column_widths.  The statements
+        # before it (the wrapped table, the <col> elements, num_columns, the list column_widths filled from the <col>
+        # widths) bind the free variables
+        ('fun', 'fixed_table_layout', 'fixed_cells_finish', {'slice_from': '<binds:border_spacing_x>', 'params': [
+            'table', 'first_row_cells', 'num_columns', 'column_widths']}),
+    ]),
     'GenCssUtils': ('weasyprint/css/utils.py', [
         ('qtable', 'LENGTHS_TO_PIXELS', 'lengths_to_pixels', {}),
+    ]),
+    'GenComputed': ('weasyprint/css/computed_values.py', [
+        # the @register_computer functions (style, name, value) of display / break-before / break-after (C08, C04);
+        # option 'computer': the function is the one registered for exactly these properties (see check_computer);
+        # `len` and `.startswith` are the builtins "%len" / "%startswith"
+        ('fun', 'display', 'display', {'computer': ['display']}),
+        ('fun', 'break_before_after', 'break_before_after', {'computer': ['break-before', 'break-after']}),
+        # position is a keyword (a str) or the pair ('running()', name): `position[0]` is the builtin "%getitem"
+        ('fun', 'compute_float', 'compute_float', {'computer': ['float'], 'str_index': True}),
+    ]),
+    'GenBuild': ('weasyprint/formatting_structure/build.py', [
+        # BOX_TYPE_FROM_DISPLAY: (outside, inside) / (table part,) -> the name of the class of boxes.py
+        ('classtable', 'BOX_TYPE_FROM_DISPLAY', 'box_type_from_display', {'module': 'boxes'}),
+    ]),
+    'GenGrid': ('weasyprint/layout/grid.py', [
+        # the placement helpers of the grid placement algorithm (C12).  `len` is the builtin "%len".  In _get_line
+        # and _get_placement the searches for NAMED lines (for ... else loops with break over enumerate / slices)
+        # are outside the subset: option 'opaque' prints each of them as a call of "%unsupported", an error value
+        # when executed; the theorems are about lines without names, which never reach them.
+        ('fun', '_intersect', 'grid_intersect', {}),
+        ('fun', '_intersect_with_children', 'grid_intersect_with_children', {}),
+        ('fun', '_get_line', 'grid_get_line', {'opaque': True}),
+        ('fun', '_get_placement', 'grid_get_placement', {'opaque': True}),
+        ('fun', '_get_span', 'grid_get_span', {}),
+    ]),
+    'GenReplacedBox': ('weasyprint/layout/replaced.py', [
+        # the functions under the handle_min_max_* decorators (`.without_min_max`); image.get_intrinsic_size is an
+        # oracle; in replaced_box_width the call statement of the (decorated) block_level_width imported inside the
+        # function is an oracle that mutates box
+        ('fun', 'min_max_auto_replaced', 'min_max_auto_replaced', {}),
+        ('fun', 'replaced_box_height', 'replaced_box_height', {}),
+        ('fun', 'replaced_box_width', 'replaced_box_width', {
+            'oracle_stmts': {'block_level_width': (['box', 'containing_block'], ['box'])}}),
+        ('fun', 'replacedbox_layout', 'replacedbox_layout', {}),
+    ]),
+    'GenPageCounters': ('weasyprint/layout/page.py', [
+        # the whole function: the loop over the three property names is unrolled and `style[propname]` gets a constant
+        # key (option 'consts' with no parameter: see specialise() / cp_block()); `continue` folded into if / else
+        ('fun', '_standardize_page_based_counters', 'standardize_page_based_counters', {'consts': {}}),
+    ]),
+    'GenPageSel': ('weasyprint/css/__init__.py', [
+        # does an @page selector (side, :blank, :first, name, :nth(an+b [of group])) match a page type; `%` is the
+        # builtin "%mod", the loop over page_type.groups has a tuple target and an `if ...: continue`
+        ('fun', 'StyleFor._page_type_match', 'page_type_match', {}),
     ]),
 }
 
@@ -815,6 +1710,7 @@ def generate(repo, out_dir, only=None):
     os.makedirs(out_dir, exist_ok=True)
     # first pass: the signatures of all function targets (what a translated body may call)
     CALLABLE.clear()
+    CTORS.clear()
     for fname, (src, targets) in TARGETS.items():
         try:
             tree0 = ast.parse(open(os.path.join(repo, src)).read())
@@ -827,7 +1723,14 @@ def generate(repo, out_dir, only=None):
                         CALLABLE['.' + g] = (['self'], {})
                 except Unsupported:
                     pass
-            if kind != 'fun' or extra.get('slice_from') or extra.get('after_unpack'):
+            if kind == 'ctor':
+                try:
+                    ps, ds = signature(find_function(tree0, pyname + '.__init__'))
+                    CALLABLE[pyname] = (ps[1:], ds)
+                    CTORS.add(pyname)
+                except Unsupported:
+                    pass
+            if kind != 'fun' or extra.get('slice_from') or extra.get('after_unpack') or extra.get('in_for'):
                 continue
             try:
                 fn0 = find_function(tree0, pyname)
@@ -864,28 +1767,52 @@ def generate(repo, out_dir, only=None):
                     errors.append(('%s:%s' % (fname, pyname), str(exc)))
                     parts.append('(* UNSUPPORTED %s: %s *)\n' % (pyname, str(exc).replace('*)', '* )')))
         for kind, pyname, coqname, extra in targets:
+            TARGET_ORACLE.clear()
             try:
                 if kind == 'props':
                     # one translated method per getter: ".name" with the single parameter self
                     for g in getters_of.get(pyname, []):
                         del CALLS_SEEN[:]
+                        del BUILTINS_SEEN[:]
                         parts.append(translate_function(PROP_GET[g], '%s_%s' % (coqname, g)))
+                        for b in sorted(set(BUILTINS_SEEN)):
+                            check_builtin(tree, PROP_GET[g], b)
                         table.append('(%s, (%s_%s_args, %s_%s_body))' % (q('.' + g), coqname, g, coqname, g))
                 elif kind == 'fun':
                     fn = find_function(tree, pyname)
+                    if extra.get('consts') is not None or extra.get('tests') or extra.get('free'):
+                        fn = specialise(fn, tree, extra.get('consts') or {}, extra.get('tests'), extra.get('free'))
+                    if extra.get('computer'):
+                        check_computer(tree, fn, extra['computer'])
                     if extra.get('calls'):
                         parts.append(translate_wrapper(fn, coqname))
                     else:
                         del CALLS_SEEN[:]
+                        del BUILTINS_SEEN[:]
+                        TARGET_ORACLE.clear()
+                        TARGET_ORACLE.update(extra.get('oracle_stmts', {}))
                         parts.append(translate_function(fn, coqname, extra.get('slice_from'), extra.get('params'),
-                                                        extra.get('after_unpack'), tree))
+                                                        extra.get('after_unpack'), tree, extra.get('in_for')))
                         for callee in sorted(set(CALLS_SEEN)):
                             check_binding(tree, fn, callee)
-                        if not extra.get('slice_from') and not extra.get('after_unpack'):
+                        for b in sorted(set(BUILTINS_SEEN)):
+                            check_builtin(tree, fn, b)
+                        if not extra.get('slice_from') and not extra.get('after_unpack') and not extra.get('in_for'):
                             key = ('.' + pyname.split('.')[-1]) if '.' in pyname else pyname
                             table.append('(%s, (%s_args, %s_body))' % (q(extra.get('call_as', key)), coqname, coqname))
+                elif kind == 'ctor':
+                    del CALLS_SEEN[:]
+                    del BUILTINS_SEEN[:]
+                    parts.append(translate_ctor(tree, pyname, coqname))
+                    for callee in sorted(set(CALLS_SEEN)):
+                        check_binding(tree, find_function(tree, pyname + '.__init__'), callee)
+                    for b in sorted(set(BUILTINS_SEEN)):
+                        check_builtin(tree, find_function(tree, pyname + '.__init__'), b)
+                    table.append('(%s, (%s_args, %s_body))' % (q(pyname), coqname, coqname))
                 elif kind == 'qtable':
                     parts.append(q_table(tree, source, pyname, coqname))
+                elif kind == 'classtable':
+                    parts.append(class_table(tree, pyname, coqname, extra['module']))
                 else:
                     parts.append(literal_table(tree, pyname, coqname))
             except Unsupported as exc:
@@ -902,6 +1829,51 @@ def generate(repo, out_dir, only=None):
     return written, errors
 
 
+def check_setitem_alias(stmts):
+    """Lists are values in Py.v: `x[i] = e` updates the variable x only.  So for every name x that the translated
+    statements mutate by a computed index, each read of x must be one that cannot create a second name for the list
+    object (x[j]; the iterable of a for / comprehension; the argument of len / sum / enumerate / max / min) -- or
+    come after the last `x[i] = ...` outside any loop that contains one (then the alias is never seen to differ).
+    When x is a parameter of a slice, the statements before the slice are NOT checked (the list must be fresh
+    there)."""
+    mod = ast.Module(body=list(stmts), type_ignores=[])
+    mutated = {}
+    for n in ast.walk(mod):
+        if isinstance(n, ast.Assign) and len(n.targets) == 1 and isinstance(n.targets[0], ast.Subscript) \
+                and isinstance(n.targets[0].value, ast.Name) \
+                and not isinstance(n.targets[0].slice, (ast.Slice, ast.Tuple, ast.Starred, ast.Constant)):
+            mutated.setdefault(n.targets[0].value.id, []).append(n)
+    if not mutated:
+        return
+    safe = set()
+    loops = []
+    for n in ast.walk(mod):
+        if isinstance(n, ast.Subscript) and isinstance(n.value, ast.Name):
+            safe.add(id(n.value))
+        if isinstance(n, (ast.For, ast.comprehension)) and isinstance(n.iter, ast.Name):
+            safe.add(id(n.iter))
+        if isinstance(n, ast.Call) and isinstance(n.func, ast.Name) \
+                and n.func.id in ('len', 'sum', 'enumerate', 'max', 'min') \
+                and len(n.args) == 1 and isinstance(n.args[0], ast.Name):
+            safe.add(id(n.args[0]))
+        if isinstance(n, (ast.For, ast.While)):
+            loops.append(n)
+    for n in ast.walk(mod):
+        if isinstance(n, ast.Name) and n.id in mutated and isinstance(n.ctx, ast.Load) and id(n) not in safe:
+            last = max(a.end_lineno for a in mutated[n.id])
+            in_loop = any(any(x is n for x in ast.walk(lp))
+                          and any(any(y is a for y in ast.walk(lp)) for a in mutated[n.id]) for lp in loops)
+            if n.lineno <= last or in_loop:
+                raise Unsupported('the list %s is mutated by index and read at line %d in a way that may alias it'
+                                  % (n.id, n.lineno))
+        if isinstance(n, (ast.Lambda, ast.FunctionDef)) and any(
+                isinstance(x, ast.Name) and x.id in mutated for x in ast.walk(n)):
+            raise Unsupported('a list mutated by index is captured by a nested function')
+        if isinstance(n, ast.For) and isinstance(n.iter, ast.Name) and n.iter.id in mutated \
+                and any(any(y is a for y in ast.walk(n)) for a in mutated[n.iter.id]):
+            raise Unsupported('the list %s is mutated by index inside a loop over it' % n.iter.id)
+
+
 def check_binding(tree, fn, callee):
     """the called name must denote the translation target: a module-level function of the same file or a name
     imported with `from ... import name`, and not rebound inside the calling function; methods (".name") are
@@ -913,12 +1885,47 @@ def check_binding(tree, fn, callee):
             raise Unsupported('%s is rebound inside %s' % (callee, fn.name))
         if isinstance(n, ast.arg) and n.arg == callee:
             raise Unsupported('%s is a parameter of %s' % (callee, fn.name))
+    if callee == 'hasattr':
+        # the builtin: not bound at the module level (by a def / class / import / assignment)
+        for n in tree.body:
+            names = [n.name] if isinstance(n, (ast.FunctionDef, ast.ClassDef)) else \
+                [x.asname or x.name for x in n.names] if isinstance(n, (ast.Import, ast.ImportFrom)) else \
+                [x.id for x in ast.walk(n) if isinstance(x, ast.Name) and not isinstance(x.ctx, ast.Load)]
+            if callee in names or '*' in names:
+                raise Unsupported('%s may be rebound at the module level' % callee)
+        return
+    if callee in TARGET_ORACLE:
+        # a declared oracle of this target: bound by a `from m import f` statement of the function itself (or of the
+        # module, below)
+        if any(isinstance(n, ast.ImportFrom) and any(a.asname is None and a.name == callee for a in n.names)
+               for n in fn.body):
+            return
     for n in tree.body:
         if isinstance(n, ast.FunctionDef) and n.name == callee:
+            return
+        if isinstance(n, ast.ClassDef) and n.name == callee and callee in CTORS:
             return
         if isinstance(n, ast.ImportFrom) and any((a.asname or a.name) == callee and a.name == callee for a in n.names):
             return
     raise Unsupported('%s is neither defined nor imported in this module' % callee)
+
+
+def check_named_builtin(tree, name):
+    """the name of a Python builtin printed as a primitive must denote the builtin: the module never binds it
+    (no assignment, definition, parameter, import, except target, global declaration of that name)"""
+    for n in ast.walk(tree):
+        if isinstance(n, ast.Name) and n.id == name and not isinstance(n.ctx, ast.Load):
+            raise Unsupported('the module rebinds the builtin %s' % name)
+        if isinstance(n, (ast.FunctionDef, ast.AsyncFunctionDef, ast.ClassDef)) and n.name == name:
+            raise Unsupported('the module defines %s' % name)
+        if isinstance(n, ast.arg) and n.arg == name:
+            raise Unsupported('%s is a parameter name in the module' % name)
+        if isinstance(n, ast.alias) and ((n.asname or n.name).split('.')[0] == name or n.name == '*'):
+            raise Unsupported('the module imports %s (or *)' % name)
+        if isinstance(n, ast.ExceptHandler) and n.name == name:
+            raise Unsupported('the module binds %s in an except clause' % name)
+        if isinstance(n, (ast.Global, ast.Nonlocal)) and name in n.names:
+            raise Unsupported('the module declares %s global / nonlocal' % name)
 
 
 def translate_wrapper(fn, name):
